@@ -167,6 +167,26 @@ def adaptive(
     )
 
 
+def _exp_cap(base_s: float, factor: float, attempt: int, max_s: float) -> float:
+    """
+    min(max_s, base_s * factor**attempt) that stays finite for very large attempt numbers.
+    """
+    if base_s <= 0.0:
+        return min(max_s, 0.0)
+    try:
+        return min(max_s, base_s * factor**attempt)
+    except OverflowError:
+        pass
+    # factor**attempt is beyond float range: decide in the log domain instead.
+    try:
+        log_cap = math.log(base_s) + attempt * math.log(factor)
+    except OverflowError:
+        return max_s
+    if max_s <= 0.0 or log_cap >= math.log(max_s):
+        return max_s
+    return min(max_s, math.exp(log_cap))
+
+
 def decorrelated_jitter(base_s: float = 0.25, max_s: float = 30.0) -> StrategyFn:
     """
     Decorrelated jitter backoff.
@@ -192,7 +212,7 @@ def equal_jitter(base_s: float = 0.25, max_s: float = 30.0) -> StrategyFn:
     """
 
     def f(attempt: int, klass: ErrorClass, prev_sleep: float | None) -> float:
-        cap = min(max_s, base_s * (2.0**attempt))
+        cap = _exp_cap(base_s, 2.0, attempt, max_s)
         return cap / 2.0 + random.uniform(0.0, cap / 2.0)
 
     return f
@@ -207,7 +227,7 @@ def token_backoff(base_s: float = 0.25, max_s: float = 20.0) -> StrategyFn:
     """
 
     def f(attempt: int, klass: ErrorClass, prev_sleep: float | None) -> float:
-        cap = min(max_s, base_s * (1.5**attempt))
+        cap = _exp_cap(base_s, 1.5, attempt, max_s)
         return random.uniform(cap / 2.0, cap)
 
     return f
